@@ -526,9 +526,9 @@ evhttp_make_header_request(struct evhttp_connection *evcon,
 
 	/* Add the content length on a request if missing
 	 * Always add it for POST and PUT requests as clients expect it */
-	if ((flags & EVHTTP_METHOD_HAS_BODY) &&
-	    (evbuffer_get_length(req->output_buffer) > 0 ||
-	     req->type == EVHTTP_REQ_POST || req->type == EVHTTP_REQ_PUT) &&
+	if ((evbuffer_get_length(req->output_buffer) > 0 ||
+	     ((flags & EVHTTP_METHOD_HAS_BODY) &&
+	      (req->type == EVHTTP_REQ_POST || req->type == EVHTTP_REQ_PUT))) &&
 	    evhttp_find_header(req->output_headers, "Content-Length") == NULL) {
 		char size[22];
 		evutil_snprintf(size, sizeof(size), EV_SIZE_FMT,
